@@ -23,19 +23,15 @@ def rules():
 
 
 def mutation():
-    out = ['| id | tier of last evidence | obligations | mutants analysed (sites) | reported | analysis-error | not reported | seeded variants reported | benign variants flagged |',
+    out = ['| id | repo commit | obligations | mutants analysed (sites in anchors) | reported | analysis-error | not reported | seeded changes reported | benign variants / refactorings flagged |',
            '|---|---|---|---|---|---|---|---|---|']
-    for f in sorted(glob.glob(os.path.join(VERIF, 'evidence', 'C*.json'))):
-        e = json.load(open(f))
-        c = e['coverage']
-        if 'mutants' in c:
-            sv = c.get('seeded_variants', [])
-            bv = c.get('benign_variants', [])
-            out.append(f"| {e['property_id']} | {e['tier']} | {c['obligations']} | {c['mutants']} ({c['mutation_sites_in_anchors']}) | {c['mutants_reported']} | "
-                       f"{c['mutants_analysis_error']} | {c['mutants_not_reported']} | {sum(1 for s in sv if s['reported_by'])}/{len(sv)} | "
-                       f"{sum(1 for b in bv if b['violations'])}/{len(bv)} |")
-        else:
-            out.append(f"| {e['property_id']} | {e['tier']} | {c['obligations']} | (quick tier: no audit) | | | | | |")
+    for f in sorted(glob.glob(os.path.join(VERIF, 'audit', 'C*.json'))):
+        c = json.load(open(f))
+        sv = c.get('seeded_variants') or []
+        bv = c.get('benign_variants') or []
+        out.append(f"| {c['property_id']} | {c.get('repo_commit', '')} | {c.get('obligations', '')} | {c['mutants']} ({c['mutation_sites_in_anchors']}) | {c['mutants_reported']} | "
+                   f"{c['mutants_analysis_error']} | {c['mutants_not_reported']} | {sum(1 for s in sv if s['reported_by'])}/{len(sv)} | "
+                   f"{sum(1 for b in bv if b['violations'])}/{len(bv)} |")
     return '\n'.join(out)
 
 
